@@ -655,3 +655,246 @@ Proof.
   assert (E0 : spec_eq (abs init) spec_init) by (unfold spec_eq, abs; simpl; auto).
   destruct (refines_from cs init spec_init Inv_init E0 _ _ _ _ R1 R2) as (? & _ & _); auto.
 Qed.
+
+(* ------------------------------------------------------------------ consequences *)
+(* reachable states of the repaired machine *)
+Definition reachable (s : st) : Prop := exists cs, s = fst (run_impl true true cs).
+
+Lemma reachable_Inv s : reachable s -> Inv s.
+Proof. intros [cs ->]. apply reach_Inv. Qed.
+
+(* emitters = one per distinct scheduled watch key, in all four collections *)
+Lemma emitters_exact cs :
+  let s := fst (run_impl true true cs) in
+  let t := fst (run_spec cs) in
+  map ewatch (emitters s) = map fst (sched t) /\
+  NoDup (map ewatch (emitters s)) /\
+  watches s = map ewatch (emitters s) /\
+  efw s = map (fun e => (ewatch e, e)) (emitters s) /\
+  (forall w, In w (map fst (sched t)) -> alookup weqb w (handlers s) <> None).
+Proof.
+  intros s t. pose proof (reach_Inv cs) as I. destruct (refines cs) as (_ & Es & _).
+  fold s in I, Es. fold t in Es. simpl in Es.
+  assert (M : map ewatch (emitters s) = map fst (sched t)).
+  { rewrite <- Es, obs_emitters_eq, map_map. reflexivity. }
+  repeat split; try apply I; auto.
+  intros w Hw. rewrite <- M in Hw. apply in_map_iff in Hw as (e & <- & He).
+  pose proof (I_handlers _ I e He) as A. unfold amem in A.
+  destruct (alookup weqb (ewatch e) (handlers s)); congruence.
+Qed.
+
+(* equal watches share one emitter: scheduling an already scheduled watch creates nothing,
+   cannot fail, and every reported emitter has a different key *)
+Lemma share_one_emitter s h w flt : reachable s -> In w (map ewatch (emitters s)) ->
+  exists s', step true true s (Schedule h w, flt) = (s', Ok) /\
+    emitters s' = emitters s /\ efw s' = efw s /\ started s' = started s /\
+    NoDup (map ewatch (emitters s')).
+Proof.
+  intros R Hw. pose proof (reachable_Inv s R) as I. simpl.
+  rewrite do_schedule_old; auto.
+  - eexists; split; [reflexivity|]. simpl. repeat split; auto. apply I.
+  - rewrite amem_efw_watches, (I_watches _ I); auto. apply memW_In; auto.
+Qed.
+
+(* unscheduling one watch does not affect another *)
+Lemma unschedule_independent s w s' r : reachable s -> step true true s (Unschedule w, NoFault) = (s', r) ->
+  forall w', w' <> w ->
+    hget (handlers s') w' = hget (handlers s) w' /\
+    (forall e, ewatch e = w' -> (In e (emitters s') <-> In e (emitters s))) /\
+    alookup weqb w' (efw s') = alookup weqb w' (efw s) /\
+    (In w' (watches s') <-> In w' (watches s)) /\
+    started s' = started s.
+Proof.
+  intros R H w' N. pose proof (reachable_Inv s R) as I. simpl in H.
+  rewrite do_unschedule_ok in H; auto.
+  destruct (amem weqb w (efw s)); inversion H; subst; clear H.
+  - simpl. repeat split.
+    + rewrite hget_aremove. unfold hs_set. apply not_eq_sym in N. apply weqb_neq in N. rewrite N. reflexivity.
+    + intros He. apply filter_In in He. tauto.
+    + intros He. apply filter_In. split; auto. unfold keep_w. rewrite H.
+      apply negb_true_iff. apply weqb_neq. auto.
+    + apply alookup_aremove_other; auto.
+    + intros Hx. apply (set_del_In weqb weqb_eq) in Hx. tauto.
+    + intros Hx. apply (set_del_In weqb weqb_eq). auto.
+  - repeat split; auto.
+Qed.
+
+(* a schedule() that raises is the identity on everything the public API shows *)
+Lemma failed_schedule_identity s h w flt s' e :
+  step true true s (Schedule h w, flt) = (s', Raised e) ->
+  abs s' = abs s /\ watches s' = watches s /\ handlers s' = handlers s /\ emitters s' = emitters s /\
+  efw s' = efw s /\ started s' = started s.
+Proof.
+  simpl. unfold do_schedule.
+  destruct (amem weqb w (efw s)); [intros H; inversion H|].
+  destruct (is_ctor flt); [intros H; inversion H; subst; repeat split; auto|].
+  destruct (alive (set_next s (S (next s)))).
+  - destruct (is_start flt 0); intros H; inversion H; subst. repeat split; auto.
+  - intros H; inversion H.
+Qed.
+
+(* never an internal KeyError: the four collections never get out of step *)
+Lemma spec_start_loop_no_internal : forall order k t flt t' r,
+  spec_start_loop order k t flt = (t', r) -> r <> Raised EKeyInternal.
+Proof.
+  induction order as [|[w a] l IHl]; intros k t flt t' r; simpl.
+  - destruct (t_started t); intros S; inversion S; discriminate.
+  - destruct (is_start flt k); [intros S; inversion S; discriminate|].
+    destruct a; [intros S; inversion S; discriminate|]. apply IHl.
+Qed.
+
+Lemma no_internal_error cs : ~ In (Raised EKeyInternal) (snd (run_impl true true cs)).
+Proof.
+  destruct (refines cs) as (-> & _). unfold run_spec. generalize spec_init.
+  induction cs as [|cf cs IH]; intros t; simpl; auto.
+  destruct (spec_step t cf) as [t1 r] eqn:S. destruct (spec_run_from t1 cs) as [t2 rs] eqn:R.
+  simpl. intros [H|H].
+  - subst r. destruct cf as [c flt]. destruct c; simpl in S.
+    + destruct (amem weqb w (sched t)); [inversion S|]. destruct (is_ctor flt); [inversion S|].
+      destruct (spec_alive t && is_start flt 0); inversion S.
+    + inversion S.
+    + destruct (memb N.eqb h (hs t w)); inversion S.
+    + destruct (amem weqb w (sched t)); inversion S.
+    + inversion S.
+    + apply spec_start_loop_no_internal in S. congruence.
+    + inversion S.
+  - specialize (IH t1). rewrite R in IH. auto.
+Qed.
+
+(* --- no delivery after a failed schedule: on the spec, then transported by the refinement *)
+Definition is_add (h : handler) (w : watch) (c : call) : bool :=
+  match c with
+  | Schedule h' w' | AddHandler h' w' => N.eqb h h' && weqb w w'
+  | _ => false
+  end.
+
+(* no call of [cs] that adds (h, w) succeeded *)
+Fixpoint no_successful_add (h : handler) (w : watch) (cs : list (call * fault)) (rs : list result) : Prop :=
+  match cs, rs with
+  | (c, _) :: cs', r :: rs' => (is_add h w c = true -> r <> Ok) /\ no_successful_add h w cs' rs'
+  | _, _ => True
+  end.
+
+Lemma spec_start_loop_hs h w : forall order k t flt t' r,
+  spec_start_loop order k t flt = (t', r) -> In h (hs t' w) -> In h (hs t w).
+Proof.
+  induction order as [|[w0 a] rest IH]; intros k t flt t' r H Hin; simpl in H.
+  - destruct (t_started t); inversion H; subst; auto.
+  - assert (D : In h (hs (spec_drop t w0) w) -> In h (hs t w)).
+    { unfold spec_drop, hs_set; simpl. destruct (weqb w0 w); simpl; tauto. }
+    destruct (is_start flt k); [inversion H; subst; auto|].
+    destruct a; [inversion H; subst; auto|].
+    apply IH in H; auto.
+Qed.
+
+Lemma spec_step_hs h w t c flt t' r :
+  spec_step t (c, flt) = (t', r) -> In h (hs t' w) -> In h (hs t w) \/ (is_add h w c = true /\ r = Ok).
+Proof.
+  intros H Hin. destruct c as [h0 w0|h0 w0|h0 w0|w0| |ord|]; simpl in H.
+  - assert (X : In h (hs_set (hs t) w0 (set_add N.eqb h0 (hs t w0)) w) ->
+                       In h (hs t w) \/ (N.eqb h h0 && weqb w w0 = true /\ Ok = Ok)).
+    { unfold hs_set. wcase w0 w; auto. intros Hi. apply (set_add_In N.eqb N.eqb_eq) in Hi as [Hi| ->]; auto.
+      right. rewrite N.eqb_refl, weqb_refl. auto. }
+    destruct (amem weqb w0 (sched t)); [inversion H; subst; simpl in *; apply X; auto|].
+    destruct (is_ctor flt); [inversion H; subst; auto|].
+    destruct (spec_alive t && is_start flt 0); inversion H; subst; auto.
+  - inversion H; subst. simpl in *. unfold hs_set in Hin. wcase w0 w; auto.
+    apply (set_add_In N.eqb N.eqb_eq) in Hin as [Hi| ->]; auto.
+    right. rewrite N.eqb_refl, weqb_refl. auto.
+  - destruct (memb N.eqb h0 (hs t w0)); inversion H; subst; auto. simpl in *.
+    unfold hs_set in Hin. wcase w0 w; auto. apply (set_del_In N.eqb N.eqb_eq) in Hin. tauto.
+  - destruct (amem weqb w0 (sched t)); inversion H; subst; auto.
+    unfold spec_drop, hs_set in Hin; simpl in Hin. destruct (weqb w0 w); simpl in *; tauto.
+  - inversion H; subst. simpl in Hin. tauto.
+  - left. eapply spec_start_loop_hs; eauto.
+  - inversion H; subst. simpl in Hin. tauto.
+Qed.
+
+Lemma spec_no_add_absent h w : forall cs t t' rs,
+  spec_run_from t cs = (t', rs) -> ~ In h (hs t w) -> no_successful_add h w cs rs -> ~ In h (hs t' w).
+Proof.
+  induction cs as [|cf cs IH]; intros t t' rs H Hn NA; simpl in H.
+  - inversion H; subst; auto.
+  - destruct (spec_step t cf) as [t1 r] eqn:S. destruct (spec_run_from t1 cs) as [t2 rs2] eqn:R.
+    inversion H; subst. destruct cf as [c flt]. simpl in NA. destruct NA as [NA1 NA2].
+    eapply IH; eauto. intros Hin. destruct (spec_step_hs _ _ _ _ _ _ _ S Hin) as [?|[A B]]; auto.
+    exact (NA1 A B).
+Qed.
+
+Lemma run_from_app f2 f2b : forall cs1 cs2 s,
+  run_from f2 f2b s (cs1 ++ cs2) =
+  let (s1, r1) := run_from f2 f2b s cs1 in let (s2, r2) := run_from f2 f2b s1 cs2 in (s2, r1 ++ r2).
+Proof.
+  induction cs1 as [|cf cs1 IH]; intros cs2 s; simpl.
+  - destruct (run_from f2 f2b s cs2); reflexivity.
+  - destruct (step f2 f2b s cf) as [s1 r]. rewrite IH.
+    destruct (run_from f2 f2b s1 cs1) as [s2 r1]. destruct (run_from f2 f2b s2 cs2). reflexivity.
+Qed.
+
+Lemma reachable_step s cf : reachable s -> reachable (fst (step true true s cf)).
+Proof.
+  intros [cs ->]. exists (cs ++ [cf]). unfold run_impl. rewrite run_from_app.
+  destruct (run_from true true init cs) as [s1 r1]. simpl.
+  destruct (step true true s1 cf). reflexivity.
+Qed.
+
+(* The statement "after a schedule() that raised, its handler receives nothing unless a later
+   successful call adds it again", for either variant of the code *)
+Definition failed_schedule_no_delivery_stmt (f2 f2b : bool) : Prop :=
+  forall pre h w flt post s1 e s2 rs,
+    let s0 := fst (run_impl f2 f2b pre) in
+    ~ In h (hget (handlers s0) w) ->
+    step f2 f2b s0 (Schedule h w, flt) = (s1, Raised e) ->
+    run_from f2 f2b s1 post = (s2, rs) ->
+    no_successful_add h w post rs ->
+    ~ In h (hget (handlers s2) w) /\ forall l, In (w, l) (receivers s2) -> ~ In h l.
+
+Lemma failed_schedule_no_delivery : failed_schedule_no_delivery_stmt true true.
+Proof.
+  intros pre h w flt post s1 e s2 rs s0 Hn S R NA.
+  assert (I0 : Inv s0) by apply reach_Inv.
+  destruct (spec_step (abs s0) (Schedule h w, flt)) as [t0 q0] eqn:T0.
+  destruct (step_sim_abs s0 _ I0 _ _ _ _ S T0) as (I1 & _ & _).
+  destruct (failed_schedule_identity _ _ _ _ _ _ S) as (_ & _ & Eh & _).
+  destruct (spec_run_from (abs s1) post) as [t' rs'] eqn:R2.
+  destruct (refines_from post s1 (abs s1) I1 (spec_eq_refl _) _ _ _ _ R R2) as (_ & Ers & (_ & E & _)).
+  subst rs'.
+  assert (X : ~ In h (hget (handlers s2) w)).
+  { simpl in E. rewrite E. eapply spec_no_add_absent; eauto. simpl. rewrite Eh. auto. }
+  split; auto.
+  intros l Hl. unfold receivers in Hl. apply in_map_iff in Hl as (x & Ex & _). inversion Ex; subst. auto.
+Qed.
+
+(* The pinned statement order (handler registered before the emitter exists) breaks it *)
+Lemma pinned_failed_schedule_refuted :
+  exists pre h w flt post s1 e s2 rs l,
+    let s0 := fst (run_impl false false pre) in
+    ~ In h (hget (handlers s0) w) /\
+    step false false s0 (Schedule h w, flt) = (s1, Raised e) /\
+    run_from false false s1 post = (s2, rs) /\
+    no_successful_add h w post rs /\
+    In (w, l) (receivers s2) /\ In h l.
+Proof.
+  pose (w := (1%N, false, 0%N)).
+  exists [], 1%N, w, FailCtor, [(Schedule 2%N w, NoFault)].
+  exists (fst (step false false init (Schedule 1%N w, FailCtor))), ECtor.
+  exists (fst (run_from false false (fst (step false false init (Schedule 1%N w, FailCtor))) [(Schedule 2%N w, NoFault)])).
+  exists [Ok], [1%N; 2%N].
+  vm_compute. repeat split; auto. intros H; discriminate.
+Qed.
+
+(* The pinned start(): the emitter of the failing watch is dropped, its handlers are kept and
+   are served again when the watch is scheduled for another handler; the map says otherwise *)
+Lemma pinned_failed_start_refuted :
+  exists cs w h,
+    snd (run_impl true false cs) = snd (run_spec cs) /\
+    In (w, [h; 2%N]) (receivers (fst (run_impl true false cs))) /\
+    hs (fst (run_spec cs)) w = [2%N] /\ h <> 2%N /\
+    (exists w', In w' (watches (fst (run_impl true false (firstn 2 cs)))) /\
+                ~ In w' (map ewatch (emitters (fst (run_impl true false (firstn 2 cs)))))).
+Proof.
+  pose (w := (1%N, false, 0%N)).
+  exists [(Schedule 1%N w, NoFault); (Start [], FailStart 0); (Schedule 2%N w, NoFault)], w, 1%N.
+  vm_compute. repeat split; auto; try discriminate.
+  exists w. split; auto.
+Qed.
